@@ -425,6 +425,33 @@ def counting_whiles_to_for(func):
     return count
 
 
+class _Splice(ast.NodeTransformer):
+    """`(a, *(b, c))` -> `(a, b, c)`, `f(*(b, c))` -> `f(b, c)`: what is left of `*args` after the argument tuple was put in"""
+
+    @staticmethod
+    def _flat(elts):
+        out = []
+        for e in elts:
+            if isinstance(e, ast.Starred) and isinstance(e.value, (ast.Tuple, ast.List)):
+                out.extend(e.value.elts)
+            else:
+                out.append(e)
+        return out
+
+    def visit_Tuple(self, node):
+        self.generic_visit(node)
+        node.elts = self._flat(node.elts)
+        return node
+
+    visit_List = visit_Tuple
+    visit_Set = visit_Tuple
+
+    def visit_Call(self, node):
+        self.generic_visit(node)
+        node.args = self._flat(node.args)
+        return node
+
+
 class _Beta(ast.NodeTransformer):
     """(lambda a, b: E)(x, y) with plain arguments  ->  E[a := x, b := y]"""
     count = 0
@@ -469,6 +496,45 @@ def beta_reduce(func):
             c.func = copy.deepcopy(lam)
     func2 = _Beta().visit(func)
     return _Beta.count - before
+
+
+def conditional_callee_to_branches(func):
+    """`f = A if c else B` directly followed by the single use `... f(args) ...` as the value of a return / assignment / expression
+    statement  ->  `if c: ... A(args) ... else: ... B(args) ...`.  Returns the number of rewrites."""
+    count = 0
+
+    def visit(stmts):
+        nonlocal count
+        j = 0
+        while j < len(stmts):
+            st = stmts[j]
+            for fld in ('body', 'orelse', 'finalbody'):
+                sub = getattr(st, fld, None)
+                if isinstance(sub, list) and not isinstance(st, (ast.FunctionDef, ast.AsyncFunctionDef, ast.ClassDef)):
+                    visit(sub)
+            for h in getattr(st, 'handlers', []) or []:
+                visit(h.body)
+            if (isinstance(st, ast.Assign) and len(st.targets) == 1 and isinstance(st.targets[0], ast.Name)
+                    and isinstance(st.value, ast.IfExp) and all(isinstance(v, (ast.Attribute, ast.Name)) for v in (st.value.body, st.value.orelse))
+                    and j + 1 < len(stmts) and isinstance(stmts[j + 1], (ast.Return, ast.Assign, ast.Expr))):
+                x = st.targets[0].id
+                use = stmts[j + 1]
+                v = use.value
+                uses = [n for n in ast.walk(func) if isinstance(n, ast.Name) and n.id == x]
+                if isinstance(v, ast.Call) and isinstance(v.func, ast.Name) and v.func.id == x and len(uses) == 2 \
+                        and not any(isinstance(n, ast.Name) and n.id == x for a in list(v.args) + [k.value for k in v.keywords] for n in ast.walk(a)):
+                    def variant(callee):
+                        u = copy.deepcopy(use)
+                        u.value.func = copy.deepcopy(callee)
+                        return u
+                    new = ast.If(test=st.value.test, body=[variant(st.value.body)], orelse=[variant(st.value.orelse)])
+                    ast.copy_location(new, st)
+                    ast.fix_missing_locations(new)
+                    stmts[j:j + 2] = [new]
+                    count += 1
+            j += 1
+    visit(func.body)
+    return count
 
 
 def propagate_state_snapshots(func):
@@ -1271,8 +1337,15 @@ class Inliner:
             if not isinstance(n, ast.FunctionDef):
                 continue
             a = n.args
-            if a.vararg or a.kwarg:
+            if a.kwarg:
                 continue
+            if a.vararg:
+                # *args is supported when the body only ever splices it (`(x, *args)`, `f(*args)`)
+                va = a.vararg.arg
+                uses = [x for x in ast.walk(n) if isinstance(x, ast.Name) and x.id == va]
+                starred = {id(x.value) for x in ast.walk(n) if isinstance(x, ast.Starred) and isinstance(x.value, ast.Name) and x.value.id == va}
+                if not uses or any(id(u) not in starred for u in uses):
+                    continue
             if any(src(d) not in ('staticmethod', 'classmethod') for d in n.decorator_list):
                 continue
             bad = False
@@ -1311,10 +1384,21 @@ class Inliner:
                 raise Unsupported('super() call')
             bound[params[0]] = recv
             params = params[1:]
+        vararg = n.args.vararg.arg if n.args.vararg else None
+        extra = []
         for i, a in enumerate(call.args):
-            if isinstance(a, ast.Starred) or i >= len(params):
+            if isinstance(a, ast.Starred):
                 raise Unsupported('argument list does not match the signature')
+            if i >= len(params):
+                if vararg is None:
+                    raise Unsupported('argument list does not match the signature')
+                extra.append(a)
+                continue
             bound[params[i]] = a
+        if vararg is not None:
+            if not all(_is_simple(a) for a in extra):
+                raise Unsupported('*args with non-trivial arguments')
+            bound[vararg] = ast.Tuple(elts=list(extra), ctx=ast.Load())
         for kw in call.keywords:
             if kw.arg is None or kw.arg not in params + [k.arg for k in n.args.kwonlyargs]:
                 raise Unsupported('keyword argument does not match the signature')
@@ -1333,6 +1417,9 @@ class Inliner:
         for p, a in bound.items():
             uses = sum(1 for s in body for x in ast.walk(s) if isinstance(x, ast.Name) and x.id == p
                        and isinstance(x.ctx, ast.Load))
+            if p == vararg:
+                exprs[p] = a
+                continue
             if p not in stored and (_is_simple(a) or uses <= 1):
                 if uses == 0 and any(isinstance(x, ast.Call) for x in ast.walk(a)):
                     prelude.append(ast.copy_location(ast.Expr(value=a), call))
@@ -1354,6 +1441,7 @@ class Inliner:
     def _instantiate(self, fi_callee, call, caller_node, keep=()):
         exprs, prelude, renames = self._bind(call, fi_callee, caller_node, keep)
         body = [_Subst(exprs, renames).visit(copy.deepcopy(s)) for s in _strip_doc(fi_callee.node.body)]
+        body = [_Splice().visit(s) for s in body]
         return prelude, body
 
     def as_expression(self, fi_callee, call, caller_node):
@@ -1567,6 +1655,9 @@ class Inliner:
                 k = propagate_state_snapshots(fi.node)
                 if k:
                     self.report.setdefault('state_snapshots', {})[q] = k
+                k = conditional_callee_to_branches(fi.node)
+                if k:
+                    self.report.setdefault('conditional_callees', {})[q] = k
                 k = unroll_literal_loops(fi.node)
                 if k:
                     self.report.setdefault('unrolled_literal_loops', {})[q] = k
